@@ -168,15 +168,34 @@ func c07Cases() []c07Case {
 		}
 		return first(eq("destination (all routers)", i.DstIP, "ff02::2"), eq("source link-layer option", net.HardwareAddr(i.OptSLLA), net.HardwareAddr(env.HostMAC)))
 	})
-	add("ICMP6SendRouterAdvertisement", nil, func(x *c07Objs) error {
-		return x.s.ICMP6SendRouterAdvertisement([]packet.PrefixInformation{{PrefixLength: 64, Prefix: net.ParseIP("2001:db8:1::")}}, icmp.RDNSSCLoudflare, packet.IP6AllNodesAddr)
-	}, func(x *c07Objs, f []refnet.SentInfo, raw [][]byte) string {
-		i, e := one(f, "ra")
-		if e != "" {
-			return e
+	raPrefixes := []packet.PrefixInformation{{PrefixLength: 64, Prefix: net.ParseIP("2001:db8:1::")}, {PrefixLength: 56, Prefix: net.ParseIP("2001:db8:2:300::")}, {PrefixLength: 48, Prefix: net.ParseIP("fd00:1:2::")}}
+	for np := 1; np <= 3; np++ {
+		for rd := 0; rd < 2; rd++ {
+			np, rd := np, rd
+			add("ICMP6SendRouterAdvertisement", []int{np, rd}, func(x *c07Objs) error {
+				var rdnss *packet.RecursiveDNSServer
+				if rd == 1 {
+					rdnss = icmp.RDNSSCLoudflare
+				}
+				return x.s.ICMP6SendRouterAdvertisement(raPrefixes[:np], rdnss, packet.IP6AllNodesAddr)
+			}, func(x *c07Objs, f []refnet.SentInfo, raw [][]byte) string {
+				i, e := one(f, "ra")
+				if e != "" {
+					return e
+				}
+				var wantP, wantR []string
+				for _, p := range raPrefixes[:np] {
+					a, _ := netip.AddrFromSlice(p.Prefix)
+					wantP = append(wantP, fmt.Sprintf("%s/%d", a, p.PrefixLength))
+				}
+				if rd == 1 {
+					wantR = []string{packet.DNSv6Cloudflare1.String(), packet.DNSv6Cloudflare2.String()}
+				}
+				return first(eq("destination (all nodes)", i.DstIP, "ff02::1"), eq("source link-layer option", net.HardwareAddr(i.OptSLLA), net.HardwareAddr(env.HostMAC)),
+					eq("prefix information options", fmt.Sprint(i.RAPrefixes), fmt.Sprint(wantP)), eq("recursive DNS servers", fmt.Sprint(i.RARDNSS), fmt.Sprint(wantR)))
+			})
 		}
-		return first(eq("destination (all nodes)", i.DstIP, "ff02::1"), eq("source link-layer option", net.HardwareAddr(i.OptSLLA), net.HardwareAddr(env.HostMAC)))
-	})
+	}
 	add("Handler6.PingAll", nil, func(x *c07Objs) error { return x.h6.PingAll() }, func(x *c07Objs, f []refnet.SentInfo, raw [][]byte) string {
 		if !x.nic.HostLLA.IsValid() {
 			if len(f) != 0 {
